@@ -80,7 +80,7 @@ fn run_one(h: &History, st: &mut Stats, class: &str) {
 
 pub fn run(ctx: &mut Ctx) {
     let thorough = ctx.tier == Tier::Thorough;
-    ctx.rule = "(b) field sweeps: for every handled MAC command every value of every field (LinkADRReq: all 256 DR/TXPower bytes x all 256 Redundancy bytes x mask patterns; RXParamSetupReq: all 256 DLSettings x frequency set; RXTimingSetupReq/TXParamSetupReq/DutyCycleReq: all 256; NewChannelReq: all 256 indices x frequency set x DrRange bytes; DlChannelReq: all 256 indices x frequency set; JoinAccept: all 256 DLSettings x RxDelay 0..15 x CFList classes), in FOpts and in port-0 payload, RX1 and RX2, OTAA and ABP, each followed by 3 silent uplinks and one uplink with an authentic downlink; (c) proptest random histories up to 12 steps mixing every frame recipe incl. >= 90-uplink silences and re-joins; regions x {nb, async, async+ClassC}. Oracle: no panic (catch_unwind), no hang (RNG draw budget per call), joined device still hands frames to the radio. Non-trivial: history with >= 1 authentic downlink carrying MAC commands or a valid JoinAccept that the reference model says is processed; distinct by hash".into();
+    ctx.rule = "(a) exhaustive: every word of length <= 3 (quick, 4 regions) / <= 4 (thorough, 9 regions) over a 13-letter event alphabet (silent uplink; garbage+foreign frame; confirmed downlink; plan narrowed to one channel in the upper half of the table; requests that would empty the plan; data-rate/channel mismatch + DlChannelReq; six queued answers after a bit-flipped frame; replay + oversize; join with CFList; join with wrong-key then all-ones DLSettings/raw CFList in RX2; join timeout; 100 silent uplinks; highest uplink DR) x {nb, async, async+ClassC} x {OTAA, ABP}, each followed by 3 silent uplinks and an answered one; (b) field sweeps: for every handled MAC command every value of every field (LinkADRReq: all 256 DR/TXPower bytes x all 256 Redundancy bytes x mask patterns; RXParamSetupReq: all 256 DLSettings x frequency set; RXTimingSetupReq/TXParamSetupReq/DutyCycleReq: all 256; NewChannelReq: all 256 indices x frequency set x DrRange bytes; DlChannelReq: all 256 indices x frequency set; JoinAccept: all 256 DLSettings x RxDelay 0..15 x CFList classes), in FOpts and in port-0 payload, RX1 and RX2, OTAA and ABP, each followed by 3 silent uplinks and one uplink with an authentic downlink; (c) proptest random histories up to 12 steps mixing every frame recipe incl. >= 90-uplink silences and re-joins; regions x {nb, async, async+ClassC}. Oracle: no panic (catch_unwind), no hang (RNG draw budget per call), joined device still hands frames to the radio. Non-trivial: history with >= 1 authentic downlink carrying MAC commands or a valid JoinAccept that the reference model says is processed; distinct by hash".into();
     ctx.assumptions = vec![
         "application inputs stay inside what the API documents: region-defined uplink data rates, port 0 only with empty data, payload <= 242 bytes; everything received is unrestricted".into(),
         "a rejection-sampling loop that draws more than 20000 random numbers in one API call is reported as a hang".into(),
@@ -236,6 +236,8 @@ pub fn run(ctx: &mut Ctx) {
             }
         }
     });
+    // ---- (a) every word up to a bounded depth over the event alphabet
+    crate::props::c04_alpha::run(ctx, &regions, if thorough { 4 } else { 3 });
     // ---- (c) random histories
     let cases = ctx.tier.pick(30_000u32, 600_000);
     let nthreads = ctx.threads as u32;
